@@ -196,6 +196,23 @@ func checkC15(c *Ctx) {
 		})
 	}
 	ea := newErrAnalysis(c, l)
+	c.rule("ERR-extraction", "storage errors inside the node walk and the change-set extraction are not dropped", 10)
+	ea.runE1E2E4("ERR-extraction", "ERR-extraction", "ERR-extraction", func(fn *ssa.Function) bool {
+		top := fn
+		for top.Parent() != nil {
+			top = top.Parent()
+		}
+		if r := top.Signature.Recv(); r != nil {
+			if n := derefNamed(r.Type()); n != nil && n.Obj().Name() == "NodeIterator" {
+				return true
+			}
+		}
+		switch top.Name() {
+		case "extractStateChanges", "traverseStateChanges", "NewNodeIterator":
+			return true
+		}
+		return false
+	})
 	esc := l.Func("", "*nodeDB.extractStateChanges")
 	ea.runE3("ERR-E3-iterator", func(fn *ssa.Function) bool {
 		for f := fn; f != nil; f = f.Parent() {
